@@ -113,8 +113,11 @@ AllSubsOK(file) == \A k \in 1..Len(file.sections) :
   /\ Has(file.sections[k], "xrefstm") => SubsOK(file.sections[k].xrefstm)
 
 \* /Length is exact and an end-of-line marker precedes endstream
-LengthOK(file) == \A o \in TopObjects(file) :
-  Has(o, "stream") => o.stream.lenok /\ o.stream.declared = o.stream.len /\ Len(o.stream.eolbefore) > 0
+LengthExact(file) == \A o \in TopObjects(file) :
+  Has(o, "stream") => o.stream.lenok /\ o.stream.declared = o.stream.len
+EndstreamEOL(file) == \A o \in TopObjects(file) :
+  Has(o, "stream") => Len(o.stream.eolbefore) > 0
+LengthOK(file) == LengthExact(file) /\ EndstreamEOL(file)
 
 \* object streams: /N = number of pairs = number of members, offsets increase,
 \* members are neither streams nor bare references, the container has
@@ -143,6 +146,18 @@ WellFormed(file) ==
   /\ CoverageOK(file)
   /\ AllSubsOK(file)
   /\ LengthOK(file)
+  /\ ObjStmOK(file)
+
+\* the same without the end-of-line marker before endstream, which ISO 32000
+\* 7.3.8.1 only recommends (property C03 asks for it, a conforming file may
+\* lack it where /Length is right)
+WellFormedLax(file) ==
+  /\ HeaderOK(file)
+  /\ StartXRefOK(file)
+  /\ EntriesOK(file)
+  /\ CoverageOK(file)
+  /\ AllSubsOK(file)
+  /\ LengthExact(file)
   /\ ObjStmOK(file)
 
 \* the same, naming the first clause that fails (for diagnostics)
